@@ -653,8 +653,14 @@ func C19(tier string) int {
 	}
 	forms := c19ConsForms()
 	explore.ParallelEach(len(cons)*len(forms), c, explore.Deadline(tier), func(i int, l *report.Local) {
-		for _, cfg := range c19ConsConfigs(forms[i%len(forms)]) {
-			c19PairIn(cons[i/len(forms)], cfg, false, c, l)
+		ent := cons[i/len(forms)]
+		for ci, cfg := range c19ConsConfigs(forms[i%len(forms)]) {
+			if ci >= 3 && strings.HasSuffix(ent.ID, "/-") {
+				// count / for_each are unknown attributes in a body without those extensions, and attributes the
+				// schema does not know are no construct JSON can express (JSON bodies are decoded through the schema)
+				continue
+			}
+			c19PairIn(ent, cfg, false, c, l)
 		}
 		l.Count("constraint_pairs", 5)
 	})
